@@ -47,5 +47,11 @@ func (s *PackScanner) loadIdxFile(idx billy.File) error {
 	s.off64Start = s.off32Start + (s.count * off32Size)
 	s.trailerStart = len(s.idxMmap) - 2*s.hashSize
 
+	if s.off64Start > s.trailerStart {
+		s.idxMmap, s.idxCleanup = nil, nil
+		_ = cleanup()
+		return fmt.Errorf("malformed idx file: %w: object count %d does not fit the file size", ErrCorruptedIdx, s.count)
+	}
+
 	return nil
 }
